@@ -79,3 +79,13 @@ Definition trim_newline (s : str) : str :=
 Definition is_whitespace (c : N) : bool :=
   ((9 <=? c) && (c <=? 13)) || (c =? 32) || (c =? 133) || (c =? 160) || (c =? 5760) ||
   ((8192 <=? c) && (c <=? 8202)) || (c =? 8232) || (c =? 8233) || (c =? 8239) || (c =? 8287) || (c =? 12288).
+
+(* decimal text of an integer (format!("{}", i)) *)
+Fixpoint dec_digits_z (fuel : nat) (n : Z) (acc : str) : str :=
+  match fuel with
+  | O => acc
+  | S f => let acc' := (48 + Z.to_N (n mod 10))%N :: acc in
+           if (n / 10 =? 0)%Z then acc' else dec_digits_z f (n / 10)%Z acc'
+  end.
+Definition show_Z (n : Z) : str :=
+  if (n <? 0)%Z then 45 :: dec_digits_z 60 (- n)%Z [] else dec_digits_z 60 n [].
